@@ -40,12 +40,20 @@ type worldSpec struct {
 	Attr   int    // index into c05Attrs
 	Flavor int    // path flavour: 0 plain, 1 non-ASCII with space, 2 sub directory
 	PushU  string // second remote `upstream`: "" (no such remote) | none | partial | full (what was pushed to it)
+	Ref    string // history KR only: kind of the ref that names the commit c2 (see c05RefKinds)
 }
+
+// kinds of ref that can make a commit "recent" (product refkinds): the history KR has a commit c2 in the middle of the
+// pushed branch main whose version of the file is in no other ref's tree; the ref of this kind is the only one that names c2
+var c05RefKinds = []string{"none", "local", "remote", "tag", "annotated-tag", "other"}
 
 func (s worldSpec) Key() string {
 	k := fmt.Sprintf("%s/%s/%s/%s/%v/attr=%s/fl=%d", s.Hist, s.Head, s.Push, s.Local, s.Ages, c05Attrs[s.Attr].Name, s.Flavor)
 	if s.PushU != "" {
 		k += "/upstream=" + s.PushU
+	}
+	if s.Ref != "" {
+		k += "/ref=" + s.Ref
 	}
 	return k
 }
@@ -65,7 +73,11 @@ type wtInfo struct {
 	File  map[string]string // path -> "deleted" | "edited" when the work-tree file is absent / is not the indexed content
 }
 
-type refInfo struct{ Name, Sha string }
+type refInfo struct {
+	Name, Sha string // Sha: the commit the ref names (annotated tags peeled)
+	Annotated bool   // the ref points at a tag object
+	TagTime   int64  // annotated tags: the tagger date
+}
 
 type facts struct {
 	Commits  map[string]*commitInfo
@@ -235,8 +247,46 @@ func (b *wb) history() {
 		b.commit("t1", 2)
 		b.git("tag", "tg")
 		b.git("checkout", "-q", "main")
+	case "KR":
+		// linear, four commits on main, every one replacing A: c1 (a1) - c1b (a2) - c2 (a3) - c3 (a4, HEAD); refkind()
+		// adds the ref under examination at c2 after the push
+		b.set(b.A, "a2")
+		b.commit("c1b", 1)
+		b.set(b.A, "a3")
+		b.commit("c2", 2)
+		b.set(b.A, "a4")
+		b.set(b.B, "b2")
+		b.commit("c3", 3)
 	default:
 		panic(buildFail{"unknown history " + b.spec.Hist, false})
+	}
+}
+
+// refkind (history KR, after the push of main): an old lightweight tag on c1 and one ref of the kind spec.Ref that names
+// c2.  c2 is an ancestor of origin/main, so nothing of it is unpushed; its version a3 of A is in the tree of no other ref.
+// Everything is made with real git commands; the annotated tag gets the date of the commit it names.
+func (b *wb) refkind() {
+	if b.spec.Hist != "KR" {
+		return
+	}
+	c2 := b.shas["c2"]
+	b.git("tag", "old", b.shas["c1"])
+	switch b.spec.Ref {
+	case "none":
+	case "local":
+		b.git("branch", "rec", c2)
+	case "remote":
+		b.git("push", "-q", "origin", c2+":refs/heads/rec") // creates refs/remotes/origin/rec, no local branch
+	case "tag":
+		b.git("tag", "rt", c2)
+	case "annotated-tag":
+		b.curAge = 2
+		b.git("tag", "-a", "-m", "release", "rt", c2)
+		b.curAge = c05LocalSlot
+	case "other":
+		b.git("update-ref", "refs/pull/1/head", c2)
+	default:
+		panic(buildFail{"unknown ref kind " + b.spec.Ref, false})
 	}
 }
 
@@ -464,6 +514,7 @@ func c05BuildWorld(spec worldSpec) (wd *world) {
 		b.history()
 		b.push()
 		b.head()
+		b.refkind()
 	} else {
 		// same history / push state / HEAD: copy the world without local state (its remote stays where it is), then
 		// refresh the index stat data and apply the local state
@@ -520,12 +571,20 @@ func c05Facts(b *wb) *facts {
 		}
 		return r
 	}
-	for _, l := range lines(b.git("for-each-ref", "--format=%(refname) %(objectname) %(objecttype)")) {
-		p := strings.Fields(l)
-		if p[2] != "commit" {
-			panic(buildFail{"unexpected non-commit ref " + l, false})
+	for _, l := range lines(b.git("for-each-ref", "--format=%(refname)|%(objectname)|%(objecttype)|%(*objectname)|%(*objecttype)|%(taggerdate:unix)")) {
+		p := strings.Split(l, "|")
+		switch {
+		case len(p) == 6 && p[2] == "commit":
+			f.Refs = append(f.Refs, refInfo{Name: p[0], Sha: p[1]})
+		case len(p) == 6 && p[2] == "tag" && p[4] == "commit":
+			ts, err := strconv.ParseInt(p[5], 10, 64)
+			if err != nil {
+				panic(buildFail{"annotated tag without a tagger date: " + l, false})
+			}
+			f.Refs = append(f.Refs, refInfo{Name: p[0], Sha: p[3], Annotated: true, TagTime: ts})
+		default:
+			panic(buildFail{"unexpected ref " + l, false})
 		}
-		f.Refs = append(f.Refs, refInfo{p[0], p[1]})
 	}
 	starts := map[string]bool{}
 	for _, r := range f.Refs {
